@@ -12,6 +12,7 @@ import ASV.Proofs.ProtoRules
 import ASV.Proofs.Components
 import ASV.Proofs.ProtoExtend
 import ASV.Proofs.ProtoRing
+import ASV.Proofs.ProtoRingSep
 namespace ASV.C03
 open ASV ASV.Rules ASV.Proto ASV.Chains ASV.ChainSweep
 
@@ -247,6 +248,78 @@ theorem protoclusters_of_rule_ring_partial (r : Rec) (hcirc : r.circular = true)
   refine ⟨groups, pcs, ?_, hpart, hp2⟩
   simp only [clustersOfRule, hfind, bind, Except.bind]
   exact hpcs
+
+/-- **Chains are never split, on any circular record** (`_partial` with respect to `CoresAreChainsRing`:
+    this is its "maximal" half, without any restriction on positions, origin-spanning anchors or chain
+    lengths; the "each core is one chain and the smallest span of it" half is proved only under
+    `InnerArc`, see above).  For every circular record whose anchoring genes are valid ring locations
+    (`RingIn`: exons non-empty and inside the record, origin-bridging genes splittable), whenever the
+    protoclusters of a rule have been formed and merged over the origin:
+      * every resulting core is a well-formed area of that rule;
+      * every anchoring gene of the rule lies inside the core of one of them;
+      * any two of them are further apart than the cutoff, measured the shorter way round the ring —
+        so genes in different protoclusters are never within the cutoff of each other, also across the
+        origin. -/
+theorem ring_chains_not_split_partial (r : Rec) (hcirc : r.circular = true) (hL : 0 < r.len) (rules : List RuleM)
+    (hrules : ∀ name rule, findRule rules name = .ok rule → 0 ≤ rule.cutoff ∧ rule.cutoff ≤ r.len)
+    (rule : RuleM) (hfind : findRule rules rule.name = .ok rule) (anchors : List Gene)
+    (hin : ∀ g ∈ r.genes, anchors.contains g.id = true → RingIn r.len g.loc)
+    (found merged : List PC) (hfound : clustersOfRule r rule anchors = .ok found)
+    (hmerged : Proto.mergeOverOrigin r rules found = .ok merged) :
+    (∀ q ∈ merged, q.rule = rule.name ∧ RingArea r.len q.core) ∧
+    (∀ g ∈ r.genes, anchors.contains g.id = true → ∃ q ∈ merged, Covers q.core g.loc) ∧
+    merged.Pairwise (fun p q => FarApart r.len rule.cutoff p.core q.core) := by
+  replace hfound : (findCores r rule.cutoff ((r.genes.filter fun g => anchors.contains g.id).map (·.loc)) >>= fun cores =>
+      cores.mapM (fun core => do
+        let surrounds ← extendArea r core rule.nbhd true
+        mkPC rule.name core surrounds)) = .ok found := hfound
+  cases hc : findCores r rule.cutoff ((r.genes.filter fun g => anchors.contains g.id).map (·.loc)) with
+  | error e => rw [hc] at hfound; cases hfound
+  | ok cores =>
+    rw [hc] at hfound
+    replace hfound : cores.mapM (fun core => do
+        let surrounds ← extendArea r core rule.nbhd true
+        mkPC rule.name core surrounds) = .ok found := hfound
+    obtain ⟨c1, c2⟩ := findCores_ring_cover r hcirc hL rule.cutoff _ cores
+      (by intro a ha
+          obtain ⟨g, hg, rfl⟩ := List.mem_map.1 ha
+          simp only [List.mem_filter] at hg
+          exact hin g hg.1 hg.2) hc
+    have hpc : ∀ pc ∈ found, pc.rule = rule.name ∧ pc.core ∈ cores := by
+      intro pc hpc
+      obtain ⟨core, hcore, hf⟩ := mapM_ok_mem _ cores found hfound pc hpc
+      cases he : extendArea r core rule.nbhd true with
+      | error e => simp [he, bind, Except.bind] at hf
+      | ok s =>
+        simp only [he, bind, Except.bind] at hf
+        have := mkPC_ok hf
+        subst this
+        exact ⟨rfl, hcore⟩
+    have hcore : ∀ core ∈ cores, ∃ pc ∈ found, pc.core = core := by
+      intro core hcore
+      obtain ⟨pc, hpcm, hf⟩ := mapM_ok_mem' _ cores found hfound core hcore
+      cases he : extendArea r core rule.nbhd true with
+      | error e => simp [he, bind, Except.bind] at hf
+      | ok s =>
+        simp only [he, bind, Except.bind] at hf
+        have := mkPC_ok hf
+        subst this
+        exact ⟨_, hpcm, rfl⟩
+    obtain ⟨m1, m2, m3⟩ := mergeOverOrigin_ring r hcirc hL rules hrules found merged
+      (fun pc hpcm => c1 _ (hpc pc hpcm).2) hmerged
+    have hrule : ∀ q ∈ merged, q.rule = rule.name := by
+      intro q hq
+      obtain ⟨_, pc, hpcm, e⟩ := m1 q hq
+      rw [e]; exact (hpc pc hpcm).1
+    refine ⟨fun q hq => ⟨hrule q hq, (m1 q hq).1⟩, ?_, ?_⟩
+    · intro g hg hanc
+      obtain ⟨k, hk, hcov⟩ := c2 g.loc (List.mem_map.2 ⟨g, List.mem_filter.2 ⟨hg, hanc⟩, rfl⟩)
+      obtain ⟨pc, hpcm, rfl⟩ := hcore k hk
+      obtain ⟨q, hq, _, hcq⟩ := m3 pc hpcm
+      exact ⟨q, hq, hcq.trans hcov⟩
+    · refine List.Pairwise.imp_of_mem ?_ m2
+      intro p q hp hq hpq
+      exact hpq ((hrule p hp).trans (hrule q hq).symm) rule (by rw [hrule p hp]; exact hfind)
 
 /-- **The per-cutoff cache is transparent** (after the repair of D1): walking the rules of one gene
     with `info_by_range` gives exactly what recomputing the nearby genes for every rule gives, for
